@@ -1,3 +1,4 @@
+import MdkVerif.Generated
 import MdkVerif.Model.Client
 /-
   MdkVerif.Model.Proposal — `process_message` with `process_proposal` (mdk-core/src/messages/proposal.rs) followed for
@@ -8,10 +9,11 @@ import MdkVerif.Model.Client
       Remove(other)            → stored pending                                   (`PendingProposal`)
       Remove(self) = leave     → receiver not admin: stored pending; receiver admin: stored, then auto-committed
       Update / GroupContextExtensions / anything else → marked processed, nothing stored (`IgnoredProposal`)
-  * `auto_commit_proposal` stores the proposal FIRST and builds the commit afterwards
-    (`commit_to_pending_proposals`): when the commit cannot be built — a commit is pending already, or a queued Remove
-    names the receiver itself (its own leave, somebody else's proposal) — the call fails with the proposal left in the
-    store; `handle_processing_error` turns that into `Unprocessable` + a Failed record (never retried)
+  * `auto_commit_proposal` (since repair 0339cde) first looks whether the commit can be built at all — no commit is pending
+    already, no queued Remove names the receiver itself (its own leave, somebody else's proposal) — and otherwise KEEPS the
+    proposal as a pending one (`PendingProposal`, record Processed).  Before the repair it stored the proposal, failed in
+    `commit_to_pending_proposals`, and answered `Unprocessable` + Failed record with the proposal left in the store; which of
+    the two the code does is the regenerated fact `Generated.autoCommitChecksBeforeStore` (`checksFirst`), and the model follows it
   * every commit builder consumes the WHOLE store (`consume_proposal_store`, OpenMLS default and forced by
     `commit_to_pending_proposals`): leaves and foreign Remove / Add proposals alike, by REFERENCE — a receiver can stage
     such a commit only if it holds every referenced proposal (else the commit fails in OpenMLS after its ratchet
@@ -113,13 +115,20 @@ def processCommitP (c : Cl) (e : Ev) (b : Body) (swept : List Nat) : Cl × Res :
     let c1 := mgrCreate c cur e
     let g1 := mergeCommitP c.maxPast c1.g e
     if removesMeP c.id b swept e.sweptX then
-      -- eviction (as in `Client.processCommit`); OpenMLS merges only the public part and does NOT empty the proposal store
+      -- eviction (as in `Client.processCommit`), decided from the STAGED commit (`self_removed()`, repair e46593e; regenerated
+      -- fact `Generated.evictionFromStagedCommit`) — also when the same commit adds somebody, who then takes the freed leaf (the
+      -- model has no leaf positions and never needed them for this: before the repair the code looked at `own_leaf()` after the
+      -- merge and missed exactly that case).  OpenMLS merges only the public part and does NOT empty the proposal store
       (setRec { c1 with g := { g1 with active := false, props := c.g.props, xq := c.g.xq } } e.n { state := 1, epoch := some c.g.recEpoch, hasGroup := true, mid := none }, .commit)
     else
     let g2 := syncRec (ensureSecret g1)
     (setRec { c1 with g := g2 } e.n { state := 2, epoch := some (epochOf g2.path), hasGroup := true, mid := none }, .commit)
 
 /-! ### process_proposal -/
+
+/-- `auto_commit_proposal` checks BEFORE storing whether the automatic commit can be built (regenerated from
+    messages/proposal.rs on every run; `true` since repair 0339cde) -/
+abbrev checksFirst : Bool := Generated.autoCommitChecksBeforeStore
 
 /-- `auto_commit_proposal` on the state in which the proposal is already stored (`g1`): the staged commit references
     everything queued, by reference, and carries nothing of its own -/
@@ -138,8 +147,12 @@ def processProposal (nextEv : Nat) (c : Cl) (e : Ev) (p : PK) : Cl × Res :=
   | .remove t =>
     let g1 := storeProp c.g e.sender p
     if t == e.sender && isAdmin c.g c.id then
-      -- stored first; `commit_to_pending_proposals` afterwards
-      if g1.pending.isSome || storeRemoves g1 c.id then failUnprocessable { c with g := g1 } e
+      -- the commit cannot be built while one is pending or when the store asks for the receiver's own removal (the sender is
+      -- never the receiver here — `step1P` hands one's own proposal to `ownMessage` — so "before" or "after" storing this
+      -- proposal makes no difference to that test)
+      if g1.pending.isSome || storeRemoves g1 c.id then
+        if checksFirst then (setRec { c with g := g1 } e.n done, .pending)     -- kept as a pending proposal
+        else failUnprocessable { c with g := g1 } e                              -- (before 0339cde: stored, then the failure)
       else
         let ne := autoCommitEv c g1 nextEv
         let g2 := ensureSecret { g1 with pending := some ne }
